@@ -31,6 +31,7 @@ const (
 type c07State struct {
 	*env
 	limit int64
+	pages []string // query strings of recent "next page" links (any repository, subject, filter)
 }
 
 func (s *c07State) bad(r resp, what string) {
@@ -119,6 +120,12 @@ func (s *c07State) readReferrers(rn, sd, filter string, tag string) {
 		}
 		if next == "" {
 			break
+		}
+		if nu, err := url.Parse(next); err == nil && !contains(s.pages, nu.RawQuery) {
+			s.pages = append(s.pages, nu.RawQuery)
+			if len(s.pages) > 4 {
+				s.pages = s.pages[1:]
+			}
 		}
 		if pages > len(want)+2 {
 			s.fail("page-termination", "chain from %s did not end after %d pages (%d referrers)", u, pages, len(want))
@@ -453,6 +460,28 @@ func c07Property(t *rapid.T, st *Stats) {
 			}
 			s.readReferrers(rn, sd, filter, "first")
 			s.readReferrers(rn, sd, filter, "repeat/cache")
+		},
+		"readForeignPage": func(t *rapid.T) {
+			// page parameters handed out for one listing, presented for another repository or subject: whatever
+			// comes back may only name manifests that have (or at the time of that listing had) the subject asked for
+			if len(s.pages) == 0 {
+				t.Skip("no page links yet")
+			}
+			rn := rapid.SampledFrom(c07Repos).Draw(t, "repo")
+			sd := rapid.SampledFrom(sortedKeys(e.subjects)).Draw(t, "subject")
+			pq := rapid.SampledFrom(s.pages).Draw(t, "pageQuery")
+			u := "/v2/" + rn + "/referrers/" + sd + "?" + pq
+			r := e.do("GET", u, nil, nil)
+			e.logf("readForeignPage %s -> %d", u, r.code)
+			s.bad(r, "GET "+u)
+			var idx mbody
+			_ = json.Unmarshal(r.body, &idx)
+			for _, x := range idx.Manifests {
+				if m := e.repo(rn).everMans[x.Digest]; m == nil || m.subject != sd {
+					s.fail("referrer-foreign-page", "GET %s lists %s, which never was a manifest of %s with subject %s", u, short(x.Digest), rn, short(sd))
+				}
+			}
+			e.class("foreign-page")
 		},
 		"readOdd": func(t *rapid.T) {
 			// unknown repository, malformed digest: 200 with an empty index
